@@ -208,6 +208,8 @@ def at_rule(F, rep, rid, exempt, enum_exempt=(), parallel=None):
                         how = 'guarded by ' + c
                     if t and (c == '%s < %s.size()' % (at, rt) or c == '%s.size() > %s' % (rt, at)):
                         how = 'guarded by ' + c
+                    if not t and (c == '%s >= %s.size()' % (at, rt) or c == '%s.size() <= %s' % (rt, at)):
+                        how = 'guarded by not ' + c
                     if at == '0' and ((c == rt + '.empty()' and not t) or (t and c in (rt + '.size() == 1', rt + '.size() > 0', '!' + rt + '.empty()'))):
                         how = 'guarded by %s%s' % ('' if t else 'not ', c)
                     if t and (c == '%s.find(%s) != %s.end()' % (rt, at, rt) or c == '%s.count(%s) != 0' % (rt, at) or c == '%s.count(%s) > 0' % (rt, at)):
